@@ -124,7 +124,8 @@ CLAIMS = {
          "the reported line is the 1-based number of that line, whatever follows; C13_no_partial; C13_enum_matches_model, "
          "C13_messages, C13_errstring over the enum and message table REGENERATED from libeconf.h / econf_error.c on every "
          "run; C13_location_is_a_record; C13_reported_name_absolute / _fixed_point (PathFacts.v: the reported name is absolute "
-         "whatever the caller's spelling, and resolving it again changes nothing). Layered reads (n-th drop-in malformed) are "
+         "whatever the caller's spelling, and resolving it again changes nothing); C13_respell_* (CwdModel.respell, through which "
+         "the model follows chdir, names cwd/name). Layered reads (n-th drop-in malformed) are "
          "compared with the model of the layered reader; the same relative name after chdir is compared with the read by the "
          "absolute name."),
    technique="Coq proof (line lemmas + induction over the prefix) + generated source tables + differential correspondence",
